@@ -79,11 +79,11 @@ PROPS = {
                            "scan's view; partial because taint values above 2^63-1-62135596800 are excluded (C01_full_fails proves the full statement false: finding T1). "
                            'The model is tied to the code by the hist correspondence (projection: removal calls) and the same predicate is monitored on the observed journals.',
                 level_note=LEVEL_NOTE,
-                aspects=['removals'], monitors=['C01'],
+                aspects=['hist:removals'], monitors=['C01'],
                 theorems=['Esc.P.C01_scan_partial', 'Esc.P.C01_history_partial', 'Esc.P.C01_unreadable', 'Esc.P.C01_untainted', 'Esc.P.C01_cordoned',
                           'Esc.P.C01_full_fails']),
     'C02': dict(level='proof', module='EscProofs.P.C02', streams=hist('C02', focus='cooldown'),
-                aspects=['writes', 'state', 'journal'], monitors=['C02'],
+                aspects=['hist:writes', 'hist:state'], monitors=['C02'],
                 theorems=['Esc.P.C02_quiet_scan', 'Esc.P.C02_history_quiet', 'Esc.P.C02_release', 'Esc.P.C02_release_scan', 'Esc.P.C02_armed',
                           'Esc.P.increaseSize_none', 'Esc.P.runOnce_quiet'],
                 technique='Lean 4 theorem (lock invariant carried through RunOnce and along histories by induction over the event list, explicit clock) + differential correspondence on all calls and on the lock state + monitor over observed histories',
@@ -93,7 +93,7 @@ PROPS = {
                            'The strictness of the boundary comparison (< vs <=) at the nanosecond is not distinguishable by the harness (real clock).',
                 level_note=LEVEL_NOTE),
     'C03': dict(level='proof', module='EscProofs.P.C03', streams=hist('C03'),
-                aspects=['taintadds', 'untaints'], monitors=['C03'],
+                aspects=['hist:taintadds', 'hist:untaints'], monitors=['C03'],
                 theorems=['Esc.P.C03_floor', 'Esc.P.C03_below_min', 'Esc.P.C03_history'],
                 technique='Lean 4 theorem (journal shape + counting lemma for the taint loop) + differential correspondence and runtime monitor',
                 level_text='C03_floor / C03_history: for every rate, minimum (configured or auto-discovered), state, view with unique node names and environment, along every history, '
@@ -101,7 +101,7 @@ PROPS = {
                            'Tie: hist correspondence on taint-adding and taint-removing updates; the same predicate monitored on observed journals.',
                 level_note=LEVEL_NOTE),
     'C04': dict(level='proof', module='EscProofs.P.C04', streams=hist('C04'),
-                aspects=['resize'], monitors=['C04'],
+                aspects=['hist:resize'], monitors=['C04'],
                 theorems=['Esc.P.C04_bound', 'Esc.P.C04_clamp_exact', 'Esc.P.C04_history'],
                 technique='Lean 4 theorem (walk of the journal with the running desired size; exact characterisation of IncreaseSize requests) + differential correspondence and runtime monitor',
                 level_text='C04_bound / C04_history: every SetDesiredCapacity value and every fleet request, on top of the desired size at that moment, is <= min(max_nodes, cloud max), for all inputs and histories; '
@@ -111,7 +111,7 @@ PROPS = {
                 streams=dict(quick=[('arith', ['-n', 40000, '-dir', '@ROOT/corpus/C05']), ('hist', ['-n', 300, '-scans', 10, '-focus', 'up'])],
                              thorough=[('arith', ['-n', 3000000, '-dir', '@ROOT/corpus/C05']), ('hist', ['-n', 15000, '-scans', 12, '-focus', 'up'])],
                              search=[('arith', ['-n', 300000, '-dir', '@ROOT/corpus/C05']), ('hist', ['-n', 1500, '-scans', 12, '-focus', 'up'])]),
-                aspects=['pct-kind', 'pct-bits', 'delta', 'delta-err', 'panic', 'resize', 'untaints'], monitors=['C05'],
+                aspects=['pct-kind', 'pct-bits', 'delta', 'delta-err', 'panic', 'hist:resize', 'hist:untaints'], monitors=['C05'],
                 theorems=['Esc.P.C05_exact_formula', 'Esc.P.C05_ceil_sufficient_minimal', 'Esc.P.C05_delta_is_max', 'Esc.P.C05_from_zero_exact',
                           'Esc.P.C05_from_zero_no_cache', 'Esc.P.C05_float_short_witness'],
                 technique='Lean 4 theorem over exact rationals (the formula is the minimal sufficient node count; from-zero variants) + bit-exact differential correspondence of the float pipeline (binary64 round-to-nearest-even implemented in the model) + exact-rational monitor of the observed delta; partial',
@@ -120,7 +120,7 @@ PROPS = {
                            'the statement "float result >= exact need" is false at extreme magnitudes (C05_float_short_witness, finding T2) and the within-+1 bound for the float result is monitored (exact-rational oracle on each observed delta), not proved.',
                 level_note=LEVEL_NOTE + ' Go float64 arithmetic = IEEE-754 binary64 RNE (checked bit-for-bit against the model on every run, not proved).'),
     'C06': dict(level='proof', module='EscProofs.P.C06', streams=hist('C06', focus='bands'),
-                aspects=['taintadds', 'untaints', 'resize', 'delta'], monitors=['C06'],
+                aspects=['hist:taintadds', 'hist:untaints', 'hist:resize', 'hist:delta'], monitors=['C06'],
                 theorems=['Esc.P.C06_bands', 'Esc.P.C06_triggers', 'Esc.P.C06_triggers_off', 'Esc.P.C06_taint_rate', 'Esc.P.C06_idle_band',
                           'Esc.P.C06_up_never_taints', 'Esc.P.C06_down_never_adds', 'Esc.P.taintLoop_count_all_ok'],
                 technique='Lean 4 theorem (band case analysis for any rounding function; exact taint count when no attempt fails; journal shape of the idle and scale-up branches) + differential correspondence at threshold neighbourhoods + exact-rational band oracle as monitor',
@@ -132,7 +132,7 @@ PROPS = {
                 streams=dict(quick=[('scenario', ['-dir', '@ROOT/corpus/C07']), ('awsops', ['-n', 3000]), ('hist', ['-n', 400, '-scans', 10, '-focus', 'up'])],
                              thorough=[('scenario', ['-dir', '@ROOT/corpus/C07']), ('awsops', ['-n', 100000]), ('hist', ['-n', 20000, '-scans', 12, '-focus', 'up'])],
                              search=[('awsops', ['-n', 20000]), ('hist', ['-n', 1500, '-scans', 12, '-focus', 'up'])]),
-                aspects=['untaints', 'resize', 'gets', 'cached-desired'], monitors=['C07'],
+                aspects=['hist:untaints', 'hist:resize', 'hist:gets', 'cached-desired'], monitors=['C07'],
                 theorems=['Esc.P.C07_order', 'Esc.P.C07_remainder', 'Esc.P.C07_on_top', 'Esc.untaintLoop_spec', 'Esc.P.tryDelete_desired', 'Esc.orderBy_pairwise'],
                 technique='Lean 4 theorem (untaint loop attempts a newest-first prefix; count/remainder accounting of ScaleUp; exact SetDesiredCapacity value on the cached desired size, which follows accepted terminations) + differential correspondence incl. the provider cache after multi-node deletions + monitors',
                 level_text='C07_order: any tainted node not attempted is not strictly newer than an attempted one (all tie-breaks, all failing writes); C07_remainder: reported untaints <= N, the cloud is asked only if every tainted node was attempted, and then for the remainder N - untainted clamped to the bound, >= 1; '
@@ -140,14 +140,14 @@ PROPS = {
                            'monitors: order, reuse, amount <= N - accepted untaints on top of the running desired size.',
                 level_note=LEVEL_NOTE),
     'C08': dict(level='proof', module='EscProofs.P.C08', streams=hist('C08', focus='ties'),
-                aspects=['taintadds', 'gets'], monitors=['C08'],
+                aspects=['hist:taintadds', 'hist:gets'], monitors=['C08'],
                 theorems=['Esc.P.C08_oldest', 'Esc.P.C08_history', 'Esc.P.taintLoop_oldest', 'Esc.orderBy_pairwise', 'Esc.orderBy_perm', 'Esc.taintLoop_spec'],
                 technique='Lean 4 theorem (the visiting order is a sorted permutation whatever the sort does among ties; the taint loop attempts a prefix of it) + differential correspondence with the observed sort order validated per case + monitor',
                 level_text='C08_oldest / C08_history: for every set of creation times (ties, identical, zero), list order, sort tie-breaking, taint count and failing GET/UPDATE, no untainted node that was not attempted is strictly older than a tainted one '
                            '(unique node names assumed). The sort itself (sort.Sort on the repo\'s Less) is not modelled: the order it produced is passed as a hint and checked, on every case, to be a sorted permutation. Tie: hist on taint-adding updates and GET order + monitor.',
                 level_note=LEVEL_NOTE),
     'C09': dict(level='proof', module='EscProofs.P.C09', streams=hist('C09'),
-                aspects=['gets', 'updates', 'removals', 'delta', 'state'], monitors=['C09'],
+                aspects=['hist:gets', 'hist:updates', 'hist:removals'], monitors=['C09'],
                 theorems=['Esc.P.C09_untouched', 'Esc.P.C09_history', 'Esc.P.C09_uncounted', 'Esc.P.C09_cache_uncounted', 'Esc.P.C09_lists_uncounted'],
                 technique='Lean 4 theorem (journal anatomy: every node-targeting call names an uncordoned node of the view) + differential correspondence and runtime monitor',
                 level_text='C09_untouched / C09_history: outside dry mode every GET/UPDATE/DELETE/terminate targets an uncordoned node of that scan\'s view, whatever the cordoned nodes carry; '
@@ -155,7 +155,7 @@ PROPS = {
                            'C09_cache_uncounted / C09_lists_uncounted: the remembered node size and the working lists are the same whether or not cordoned nodes are listed (defect F8 repaired in 36808c6; regression scenario in corpus/C09).',
                 level_note=LEVEL_NOTE),
     'C10': dict(level='proof', module='EscProofs.P.C10', streams=hist('C10', focus='annot'),
-                aspects=['removals'], monitors=['C10'],
+                aspects=['hist:removals'], monitors=['C10'],
                 theorems=['Esc.P.C10_protected', 'Esc.P.C10_history', 'Esc.P.C10_empty_value_unprotected', 'Esc.P.C10_still_counted',
                           'Esc.P.C10_capacity_unchanged', 'Esc.P.C10_no_holdback'],
                 technique='Lean 4 theorem (journal anatomy: removal candidates are never protected) + differential correspondence and runtime monitor',
@@ -163,7 +163,7 @@ PROPS = {
                            'classification and capacity ignore annotations; candidates are computed node by node (no hold-back). Tie: hist correspondence on removal calls + monitor.',
                 level_note=LEVEL_NOTE),
     'C11': dict(level='proof', module='EscProofs.P.C11', streams=hist('C11', focus='dry'),
-                aspects=['drywrites'], monitors=['C11'],
+                aspects=['hist:drywrites'], monitors=['C11'],
                 theorems=['Esc.P.C11_scan', 'Esc.P.C11_history', 'Esc.P.C11_reading'],
                 technique='Lean 4 theorem (journal anatomy: with either dry switch every entry is a read) + differential correspondence and runtime monitor',
                 level_text='C11_scan / C11_history: with the global flag or the group option set, the group scan journal contains no write, for every state/view/environment and every history. '
@@ -205,7 +205,7 @@ PROPS = {
                 streams=dict(quick=[('scenario', ['-dir', '@ROOT/corpus/C19']), ('awsops', ['-n', 3000]), ('hist', ['-n', 300, '-scans', 10])],
                              thorough=[('scenario', ['-dir', '@ROOT/corpus/C19']), ('awsops', ['-n', 200000]), ('hist', ['-n', 15000, '-scans', 12])],
                              search=[('awsops', ['-n', 20000]), ('hist', ['-n', 1500, '-scans', 12])]),
-                aspects=['journal', 'outcome', 'cached-desired', 'removals'], monitors=['C19'],
+                aspects=['journal', 'outcome', 'cached-desired', 'hist:removals', 'hist:outcome'], monitors=['C19'],
                 theorems=['Esc.P.C19_delete', 'Esc.P.C19_count', 'Esc.P.C19_refuse', 'Esc.P.C19_k8s_after_cloud', 'Esc.P.C19_scan_batches',
                           'Esc.P.C19_not_member_scan', 'Esc.P.C19_not_member_fatal'],
                 technique='Lean 4 theorem over the model of aws.NodeGroup.DeleteNodes and TryDeleteNodes (induction over the node list, every failing index) lifted to the scan journal shape + differential correspondence + monitors',
@@ -214,7 +214,7 @@ PROPS = {
                            'Tie: awsops (provider level) and hist (controller level) + monitors.',
                 level_note=LEVEL_NOTE),
     'C12': dict(level='proof', module='EscProofs.P.C12', streams=hist('C12', focus='multi'),
-                aspects=['journal', 'reccount', 'outcome'], monitors=['C12'],
+                aspects=['hist:journal', 'hist:reccount', 'hist:outcome'], monitors=['C12'],
                 theorems=['Esc.P.C12_targets', 'Esc.P.C12_frame', 'Esc.P.C12_containment', 'Esc.P.C12_fatal_kinds', 'Esc.P.scanGroup_gid'],
                 technique='Lean 4 theorem (targets from the journal anatomy; frame lemma for the per-group loop by induction over the configured groups; containment by case analysis of the loop) + differential correspondence on per-group journals with 2-3 groups + monitor',
                 level_text='C12_targets: every call of a group scan targets a node listed for that group, an instance of its cached cloud group, or that cloud group; C12_frame: a group\'s record is the scan of its own configuration, state, cloud group and view '
@@ -248,7 +248,7 @@ PROPS = {
                 streams=dict(quick=[('taintops', ['-n', 4000]), ('hist', ['-n', 300, '-scans', 10])],
                              thorough=[('taintops', ['-n', 100000]), ('hist', ['-n', 15000, '-scans', 12])],
                              search=[('taintops', ['-n', 20000]), ('hist', ['-n', 1500, '-scans', 12])]),
-                aspects=['journal', 'ok', 'time', 'age', 'updates', 'panic'], monitors=['C15'],
+                aspects=['journal', 'ok', 'time', 'age', 'panic', 'hist:updates'], monitors=['C15'],
                 theorems=['Esc.P.C15_add', 'Esc.P.C15_add_idempotent', 'Esc.P.C15_delete', 'Esc.P.C15_no_restamp', 'Esc.P.C15_history',
                           'Esc.P.swapRemoveFirst_perm'],
                 technique='Lean 4 theorem (exact object of every UPDATE relative to the preceding GET; swap-remove preserves the other taints as a multiset; no re-stamp along histories) + differential correspondence on complete UPDATE objects + monitor',
@@ -260,7 +260,7 @@ PROPS = {
                 streams=dict(quick=[('scenario', ['-dir', '@ROOT/corpus/C20']), ('hist', ['-n', 500, '-scans', 8, '-focus', 'faults'])],
                              thorough=[('scenario', ['-dir', '@ROOT/corpus/C20']), ('hist', ['-n', 30000, '-scans', 10, '-focus', 'faults']), ('hist', ['-n', 60, '-scans', 6, '-focus', 'faults', '-slow'])],
                              search=[('hist', ['-n', 2500, '-scans', 8, '-focus', 'faults'])]),
-                aspects=['outcome', 'reccount', 'journal', 'init:ok'], monitors=['C20'],
+                aspects=['hist:outcome', 'hist:reccount', 'hist:ok', 'panic'], monitors=['C20'],
                 theorems=['Esc.P.C20_outcomes', 'Esc.P.C20_fatal_only_partial', 'Esc.P.C20_contained', 'Esc.P.C20_provider_id_guard', 'Esc.P.C20_ready_bounded',
                           'Esc.P.C12_containment'],
                 technique='Lean 4 theorem (totality/termination of the model by construction, enumeration of RunOnce outcomes, error containment, index guard) + differential correspondence of the outcome class of every scan under odd object shapes and single/double injected faults + monitor; partial',
@@ -276,10 +276,15 @@ GLOBAL_ASPECTS = {'outcome'}
 
 
 def diff_relevant(prop, d):
-    """d is e.g. 'g0:removals', 'pre', 'outcome', 'init:journal', 'g1:state'."""
-    aspect = d.split(':')[-1]
+    """d is e.g. 'g0:removals' (a group-scan aspect of the hist/scenario streams), 'outcome', 'pre', 'reccount',
+    'init:journal' (run-level aspects of those streams), or a bare aspect of a direct-call stream ('journal', 'ok', …).
+    In the table, 'hist:x' names a group-scan or run-level aspect of hist/scenario; a bare 'x' names a direct-call aspect."""
     asp = set(PROPS[prop]['aspects'])
-    return aspect in asp or d in asp
+    if ':' in d:
+        return 'hist:' + d.split(':')[-1] in asp
+    if d in ('outcome', 'pre', 'reccount'):
+        return 'hist:' + d in asp or d in asp
+    return d in asp
 
 
 def sample_of(case_line, result):
